@@ -359,14 +359,15 @@ Qed.
 
 (** * the substitution loop *)
 Section Loop.
-  Variable parf : val -> val -> str.     (* get_parallelize_command, when it cannot fail *)
+  Variable par : val -> val -> res str.  (* get_parallelize_command *)
+  Variable tsub : tokform -> str.        (* what it returns for a token's counts *)
   Variable nn pp : N.                    (* the step's totals *)
-  Let par := fun p n : val => Ok (parf p n) : res str.
-  Definition tok_sub (f : tokform) : str := parf (snd (tok_vals f)) (fst (tok_vals f)).
-  Hypothesis par_tok_ok : forall f, tok_wf f = true -> sub_ok (tok_sub f) = true.
+  Hypothesis par_tok : forall f, tok_wf f = true ->
+    par (snd (tok_vals f)) (fst (tok_vals f)) = Ok (tsub f).
+  Hypothesis tsub_ok : forall f, tok_wf f = true -> sub_ok (tsub f) = true.
 
   Definition loop_step (l : list seg) (f : tokform) : list seg :=
-    map (sub_tok (alloc_text f) (tok_sub f)) l.
+    map (sub_tok (alloc_text f) (tsub f)) l.
 
   Definition sumZ (g : tokform -> N) (fs : list tokform) : Z :=
     fold_right (fun f z => (Z.of_N (g f) + z)%Z) 0%Z fs.
@@ -393,9 +394,9 @@ Section Loop.
       destruct (match tok_nodes f with Some n => exceeds nn (dval 0 n) | None => false end
                 || exceeds pp (tok_p f)) eqn:E.
       + auto.
-      + unfold par at 1. simpl bind.
+      + rewrite par_tok by auto. simpl bind.
         rewrite replace_from_tok_segs by (auto using alloc_text_ok).
-        change (map (sub_tok (alloc_text f) (parf (snd (tok_vals f)) (fst (tok_vals f)))) l) with (loop_step l f).
+        change (map (sub_tok (alloc_text f) (tsub f)) l) with (loop_step l f).
         rewrite IHfs; auto.
         * simpl. destruct (existsb (tok_exceeds nn pp) fs); auto.
           f_equal. f_equal. f_equal; lia.
@@ -406,7 +407,7 @@ Section Loop.
   Definition sub_all (fs : list tokform) (x : seg) : seg :=
     match x with
     | STok a => match find (fun f => str_eqb (alloc_text f) a) fs with
-                | Some f => SSub (tok_sub f)
+                | Some f => SSub (tsub f)
                 | None => x
                 end
     | _ => x
@@ -422,25 +423,27 @@ Section Loop.
   Qed.
 
   (** same text, same substitution *)
-  Lemma tok_sub_text : forall f g, tok_wf f = true -> tok_wf g = true -> alloc_text f = alloc_text g ->
-    tok_sub f = tok_sub g.
+  Lemma tsub_text : forall f g, tok_wf f = true -> tok_wf g = true -> alloc_text f = alloc_text g ->
+    tsub f = tsub g.
   Proof.
-    intros f g Wf Wg E. unfold tok_sub.
+    intros f g Wf Wg E.
     pose proof (parse_alloc_form f Wf) as Pf. pose proof (parse_alloc_form g Wg) as Pg.
-    rewrite E in Pf. rewrite Pf in Pg. inversion Pg. auto.
+    rewrite E in Pf. rewrite Pf in Pg. inversion Pg as [V].
+    pose proof (par_tok f Wf) as A. pose proof (par_tok g Wg) as B. rewrite V in A. rewrite A in B.
+    inversion B. auto.
   Qed.
 
   Variable nodes procs : val.            (* what a bare variable gets *)
-  Hypothesis par_bare_ok : sub_ok (parf procs nodes) = true.
+  Variable bsub : str.
 
   Definition final_seg (p : piece) : seg :=
     match p with
     | PText t => SText t
-    | PBare => SSub (parf procs nodes)
-    | PTok f => SSub (tok_sub f)
+    | PBare => SSub bsub
+    | PTok f => SSub (tsub f)
     end.
   Definition mid_seg (p : piece) : seg :=
-    match p with PTok f => SSub (tok_sub f) | _ => seg_of p end.
+    match p with PTok f => SSub (tsub f) | _ => seg_of p end.
 
   Lemma sub_all_pieces : forall ps, pieces_wf ps = true ->
     map (sub_all (toks_of ps)) (map seg_of ps) = map mid_seg ps.
@@ -451,7 +454,7 @@ Section Loop.
     { unfold toks_of. apply in_flat_map. exists (PTok f). split; auto. simpl. auto. }
     destruct (find (fun f0 => str_eqb (alloc_text f0) (alloc_text f)) (toks_of ps)) eqn:F.
     - apply find_some in F. destruct F as [F1 F2]. apply str_eqb_eq in F2.
-      rewrite forallb_forall in TW. f_equal. apply tok_sub_text; auto.
+      rewrite forallb_forall in TW. f_equal. apply tsub_text; auto.
     - exfalso. pose proof (find_none _ _ F f If) as Q. simpl in Q. rewrite str_eqb_refl in Q. discriminate.
   Qed.
 
@@ -464,22 +467,22 @@ Section Loop.
   Lemma mid_no_tok : forall ps, existsb is_tok (map mid_seg ps) = false.
   Proof. induction ps as [|p r]; simpl; auto. destruct p; simpl; auto. Qed.
 
-  Lemma final_of_mid : forall ps, map (sub_var (parf procs nodes)) (map mid_seg ps) = map final_seg ps.
+  Lemma final_of_mid : forall ps, map (sub_var bsub) (map mid_seg ps) = map final_seg ps.
   Proof. intros. rewrite map_map. apply map_ext. intros p. destruct p; auto. Qed.
 
   Lemma mid_has_var : forall ps,
-    existsb (fun x => is_var x || is_tok x) (map mid_seg ps) = existsb (fun p => match p with PBare => true | _ => false end) ps.
-  Proof. induction ps as [|p r]; simpl; auto. destruct p; simpl; auto. Qed.
+    existsb (fun x => is_var x || is_tok x) (map mid_seg ps) = has_bare ps.
+  Proof. unfold has_bare. induction ps as [|p r]; simpl; auto. destruct p; simpl; auto. Qed.
 
-  Lemma final_no_bare : forall ps, existsb (fun p => match p with PBare => true | _ => false end) ps = false ->
-    map final_seg ps = map mid_seg ps.
+  Lemma final_no_bare : forall ps, has_bare ps = false -> map final_seg ps = map mid_seg ps.
   Proof.
-    induction ps as [|p r]; simpl; intros; auto. destruct p; simpl in *; try discriminate; rewrite IHr; auto.
+    unfold has_bare. induction ps as [|p r]; simpl; intros; auto.
+    destruct p; simpl in *; try discriminate; rewrite IHr; auto.
   Qed.
 
-  Lemma final_seg_ok : forall ps, pieces_wf ps = true -> segs_ok (map final_seg ps) = true.
+  Lemma final_seg_ok : forall ps, sub_ok bsub = true -> pieces_wf ps = true -> segs_ok (map final_seg ps) = true.
   Proof.
-    intros ps W. pose proof (mid_seg_ok ps W) as M. clear W.
+    intros ps BS W. pose proof (mid_seg_ok ps W) as M. clear W.
     induction ps as [|p r]. auto.
     pose proof (segs_ok_tail _ _ M) as Mr. specialize (IHr Mr).
     assert (ST : starts_text (map final_seg r) = starts_text (map mid_seg r)).
@@ -487,7 +490,7 @@ Section Loop.
     destruct p; simpl map in *.
     - simpl in *. rewrite ST, IHr. repeat (apply andb_true_iff in M; destruct M as [M ?]).
       rewrite M, H0, H1. auto.
-    - simpl. rewrite par_bare_ok, IHr. auto.
+    - simpl. rewrite BS, IHr. auto.
     - simpl in *. rewrite IHr. apply andb_true_iff in M. destruct M as [M _]. rewrite M. auto.
   Qed.
 
@@ -502,12 +505,14 @@ Section Loop.
   Lemma sumZ_sum_N : forall g fs, sumZ g fs = Z.of_N (sum_N (map g fs)).
   Proof. induction fs; simpl. auto. rewrite IHfs. unfold sum_N. simpl. lia. Qed.
 
-  (** _substitute_parallel_command on a well-formed command *)
+  (** _substitute_parallel_command on a well-formed command; the launcher
+      invocation for the bare variable is only built when there is one *)
   Theorem substitute_spec : forall ps, pieces_wf ps = true ->
+    (has_bare ps = true -> par procs nodes = Ok bsub) ->
     substitute par nodes procs (pieces_text ps) =
     if rejects ps then Err Diag else Ok (segs_text (map final_seg ps)).
   Proof.
-    intros ps W. pose proof (pieces_wf_segs_ok ps W) as S. pose proof (toks_of_wf ps W) as TW.
+    intros ps W HB. pose proof (pieces_wf_segs_ok ps W) as S. pose proof (toks_of_wf ps W) as TW.
     unfold substitute. rewrite pieces_text_segs. rewrite scan_segs by auto. rewrite toks_segs_of.
     destruct (toks_of ps) as [|f fs] eqn:T.
     - (* no bracketed token *)
@@ -518,8 +523,8 @@ Section Loop.
         assert (In f (toks_of ps)). { unfold toks_of. apply in_flat_map. exists (PTok f). simpl. auto. }
         rewrite T in H. destruct H. }
       rewrite M. rewrite contains_var_segs by (rewrite <- M; auto). rewrite mid_has_var.
-      destruct (existsb (fun p => match p with PBare => true | _ => false end) ps) eqn:B.
-      + unfold replace_bare, par. simpl bind.
+      destruct (has_bare ps) eqn:B.
+      + unfold replace_bare. rewrite (HB eq_refl). simpl bind.
         rewrite replace_from_var_segs; [ | rewrite <- M; auto | apply mid_no_tok ].
         rewrite final_of_mid. auto.
       + rewrite final_no_bare by auto. auto.
@@ -536,8 +541,8 @@ Section Loop.
       destruct (exceeds nn (sum_N (map tok_n (toks_of ps)))). auto.
       simpl. rewrite fold_sub_all. rewrite sub_all_pieces by auto.
       rewrite contains_var_segs by (apply mid_seg_ok; auto). rewrite mid_has_var.
-      destruct (existsb (fun p => match p with PBare => true | _ => false end) ps) eqn:B.
-      + unfold replace_bare, par. simpl bind.
+      destruct (has_bare ps) eqn:B.
+      + unfold replace_bare. rewrite (HB eq_refl). simpl bind.
         rewrite replace_from_var_segs by (auto using mid_no_tok, mid_seg_ok).
         rewrite final_of_mid. auto.
       + rewrite final_no_bare by auto. auto.
